@@ -24,7 +24,8 @@ import population
 
 THEOREMS = ["Nmfu.C10_ok_consumes_chunk", "Nmfu.C10_cursor_within_chunk", "Nmfu.C10_fail_absorbing", "Nmfu.C10_fail_absorbing_empty_chunk",
             "Nmfu.C10_yield_resume_exact", "Nmfu.noStuck_of_leavesOK", "Nmfu.C10_end_fail_is_final", "Nmfu.C10_end_fail_then_empty_chunk",
-            "Nmfu.emptyFails_failTarget"]
+            "Nmfu.emptyFails_failTarget", "Nmfu.C10_fail_is_final", "Nmfu.runOps_good", "Nmfu.apiStep_of_failed",
+            "Nmfu.C10_cannot_fail"]
 
 
 def parse(lines):
@@ -65,6 +66,14 @@ def work(job):
     wf = rtdiff.model().ask("wf", case.opts, case.mt, timeout=60)
     if "endFailOK=false" in wf:
         res["corr"].append({"kind": "endFailOK fails: some FAIL of end() does not leave the fail state behind", "args": case.args})
+    # hypotheses of C10_fail_is_final (or, for a parser that has no way to fail, of C10_cannot_fail)
+    if "failClosed=false" in wf:
+        res["corr"].append({"kind": "failClosed fails: some call leaves a state outside the table, or a FAIL leaves another index than failTarget", "args": case.args})
+    if "emptyFailsTarget=false" in wf:
+        if "hasFailState=false" in wf and not case.eof() and "neverFailsOnBytes=true" in wf:
+            res["cannot_fail"] = res.get("cannot_fail", 0) + 1       # C10_cannot_fail applies instead
+        else:
+            res["corr"].append({"kind": "the empty-chunk test of feed does not name the index a FAIL leaves behind", "args": case.args, "wf": wf[-200:]})
     if "endFailExact=false" in wf:
         res["corr"].append({"kind": "endFailExact fails: some FAIL of end() leaves another index than the one feed's empty-chunk test names", "args": case.args})
     has_yield = bool(list(case.outcome.cctx.yield_codes))
@@ -218,7 +227,7 @@ def work(job):
 
 def main():
     ck = Check("C10", "proof")
-    ck.lean_obligations("NmfuProps.C10", THEOREMS)
+    ck.lean_obligations("NmfuProps.C10Final", THEOREMS)
     n_gen = 60 if ck.tier == "quick" else 800
     progs = list(population.population(ck.seed, n_gen))
     wd = common.scratch_dir("c10")
@@ -228,7 +237,8 @@ def main():
     finally:
         shutil.rmtree(wd, ignore_errors=True)
     byname = {p["name"]: p for p in progs}
-    st = {"programs": 0, "histories": 0, "rejected": 0, "terminal_codes_seen": {}, "fail_cursors_checked_against_reference": 0}
+    st = {"programs": 0, "histories": 0, "rejected": 0, "terminal_codes_seen": {}, "fail_cursors_checked_against_reference": 0,
+          "machines_under_C10_fail_is_final": 0, "machines_under_C10_cannot_fail": 0}
     distinct = set()
     for r in results:
         if r["status"] != "ok":
@@ -237,6 +247,8 @@ def main():
         st["programs"] += 1
         st["histories"] += r["histories"]
         st["fail_cursors_checked_against_reference"] += r.get("ref_positions", 0)
+        st["machines_under_C10_cannot_fail"] += r.get("cannot_fail", 0)
+        st["machines_under_C10_fail_is_final"] += 1 - r.get("cannot_fail", 0)
         for k, v in r["term_seen"].items():
             st["terminal_codes_seen"][k] = st["terminal_codes_seen"].get(k, 0) + v
         prog = byname[r["name"]]
